@@ -227,8 +227,11 @@ def run_cli(
     schema_format="json",
     callbacks=None,
     url_userinfo=None,
+    schema_userinfo=None,
+    url_option_form="separate",
 ):
-    """Run `st run <schema-url> --url <base> <args...>` in-process. Returns RunResult."""
+    """Run `st run <schema-url> --url <base> <args...>` in-process. Returns RunResult.
+    `schema_userinfo` puts credentials into the schema location as well; `url_option_form` = "equals" spells `--url=<base>`."""
     from schemathesis import cli as st_cli
     from schemathesis.cli.commands.run import executor
     from schemathesis.cli.commands.run.handlers.base import EventHandler
@@ -251,7 +254,11 @@ def run_cli(
     with RecordingServer(script, dynamic=dynamic) as server:
         result.base_url = server.url + base_path
         cli_base_url = result.base_url if not url_userinfo else result.base_url.replace("http://", f"http://{url_userinfo}@")
-        argv = ["run", server.url + SCHEMA_PATH, "--url", cli_base_url, "--no-color"] + list(args)
+        schema_url = server.url + SCHEMA_PATH
+        if schema_userinfo:
+            schema_url = schema_url.replace("http://", f"http://{schema_userinfo}@")
+        url_args = [f"--url={cli_base_url}"] if url_option_form == "equals" else ["--url", cli_base_url]
+        argv = ["run", schema_url] + url_args + ["--no-color"] + list(args)
         out, err = io.StringIO(), io.StringIO()
 
         def fire():
